@@ -270,7 +270,14 @@ def check_list(res, case):
             nl = [len(t.splitlines()) for t in proj.texts]
             # entries: consecutive groups per file
             entries = []    # (file index, line or None)
+            dir_positions = []
             for fi, lines in case["entries"]:
+                if fi == "dir":
+                    # the features directory itself as an argument: every file in it, in sorted order, as a whole
+                    dir_positions.append(len(entries))
+                    by_name = sorted(range(nfeat), key=lambda i: os.path.basename(proj.feature_files[i]))
+                    entries.extend((i, None) for i in by_name)
+                    continue
                 fi = fi % nfeat
                 for ln in lines:
                     entries.append((fi, None if ln is None else 1 + (ln % nl[fi])))
@@ -316,8 +323,17 @@ def check_list(res, case):
                     res.label("listfile:indented-entry")
             else:
                 args = []
-                for fi, ln in entries:
+                k = 0
+                while k < len(entries):
+                    if k in dir_positions:
+                        args.append("features")
+                        k += nfeat
+                        continue
+                    fi, ln = entries[k]
                     args.append(proj.feature_files[fi] if ln is None else "%s:%d" % (proj.feature_files[fi], ln))
+                    k += 1
+                if dir_positions:
+                    res.label("via-args:directory-next-to-locations")
                 locations = collect_feature_locations(args)
                 features = parse_features(locations)
                 res.label("via-args")
@@ -458,6 +474,9 @@ def list_case(draw):
             "via": draw(st.sampled_from(["list", "list", "args"])),
             "listdir": draw(st.sampled_from(["", "", "lists", "features"])),
             "deco": draw(st.lists(st.integers(0, 23), min_size=1, max_size=4))}
+    if case["via"] == "args" and draw(st.integers(0, 2)) == 0:
+        # the directory is named as well (before, between or after the file locations)
+        entries.insert(draw(st.integers(0, len(entries))), ["dir", []])
     if case["via"] == "args" and draw(st.booleans()):
         # command-line arguments name files literally (entries of a list file may be glob patterns: not used there)
         k = draw(st.integers(0, n - 1))
@@ -496,7 +515,7 @@ def required_labels(tier):
     return ["entity:feature", "entity:rule", "entity:outline", "entity:row", "entity:scenario", "setup/teardown",
             "noise", "all-pairs(doc<=12)", "run-sample", "via-listfile:subdir", "via-listfile:cwd", "via-args",
             "listfile:indented-entry", "files:2", "locparse", "name", "name:row-selected", "scenario-names-not-unique",
-            "via-args:glob-characters-in-file-name", "run-sample:auto-retry", "list:file-named-again-later"]
+            "via-args:glob-characters-in-file-name", "run-sample:auto-retry", "list:file-named-again-later", "via-args:directory-next-to-locations"]
 
 
 def _f12(case, detail, info):
